@@ -81,7 +81,16 @@ func SpellV(prog []item, v int) string {
 			var ps []string
 			for q, p := range it.Ps {
 				if p.D != "" {
-					ps = append(ps, p.N+"="+p.D)
+					// the default as a plain name, or (same scoping) parameter and default wrapped in an array / object pattern
+					// and literal: `[n]=[d]`, `{0:n}={0:d}`
+					switch {
+					case v >= 0 && (v+q+nblk)%4 == 1:
+						ps = append(ps, "["+p.N+"]=["+p.D+"]")
+					case v >= 0 && (v+q+nblk)%4 == 3:
+						ps = append(ps, "{0:"+p.N+"}={0:"+p.D+"}")
+					default:
+						ps = append(ps, p.N+"="+p.D)
+					}
 				} else if v >= 0 && q == len(it.Ps)-1 && (v+q)%3 == 0 {
 					ps = append(ps, "..."+p.N) // the last parameter as a rest parameter: same scoping
 				} else {
